@@ -1592,7 +1592,7 @@ impl<'a, A: Write, B: Write> Gen<'a, A, B> {
     fn val_subset(&mut self, n: usize) -> Vec<String> {
         let mut pool: Vec<&str> = VALS.to_vec();
         let mut out = vec![];
-        for _ in 0..n.min(8) {
+        for _ in 0..n.min(VALS.len()) {
             let i = self.r.below(pool.len() as u64) as usize;
             out.push(s(pool.remove(i)));
         }
@@ -1726,7 +1726,7 @@ impl<'a, A: Write, B: Write> Gen<'a, A, B> {
             51 => Op::Hub { sender, msg: HubMsg::Withdraw },
             52 => Op::Reward { sender, msg: RewardMsg::Claim(None) },
             53 => Op::Hub { sender, msg: HubMsg::UpdateGlobal(0) },
-            54 => Op::Reg { sender, msg: RegMsg::Add(s("val9")) },
+            54 => Op::Reg { sender, msg: RegMsg::Add(s("valx")) },
             _ => Op::Hub { sender, msg: HubMsg::CheckSlashing },
         }
     }
@@ -1924,7 +1924,12 @@ impl<'a, A: Write, B: Write> Gen<'a, A, B> {
             oracle: s("oracle"),
             denoms: vec![s("uAtom"), s("usei"), s("uusd")],
         });
-        let nvals = if self.profile == "registry" {
+        // about 15 % of the `registry` and `general` histories register nine to twelve validators
+        // (plans longer than the "ten most-delegated" / "seven redelegations" cuts a change may add)
+        let many = (self.profile == "registry" || self.profile == "general") && self.r.pct(15);
+        let nvals = if many {
+            self.r.range(9, VALS.len() as u64) as usize
+        } else if self.profile == "registry" {
             self.r.range(1, 8) as usize
         } else {
             match self.r.below(100) {
@@ -2301,11 +2306,12 @@ impl<'a, A: Write, B: Write> Gen<'a, A, B> {
             denoms: vec![s("uAtom"), s("usei"), s("uusd")],
         });
         let nvals = match self.r.below(100) {
-            0..=14 => 1,
-            15..=34 => 2,
-            35..=64 => 3,
-            65..=84 => 4,
-            _ => 5,
+            0..=12 => 1,
+            13..=30 => 2,
+            31..=58 => 3,
+            59..=76 => 4,
+            77..=89 => 5,
+            _ => self.r.range(9, VALS.len() as u64) as usize,
         };
         let reg: Vec<String> = self.val_subset(nvals);
         self.emit(Op::InstReg { sender: s("owner"), hub: s("hub"), vals: reg.clone() });
